@@ -111,6 +111,7 @@ func runC02(c *Ctx) {
 	time.Sleep(5 * time.Minute)
 	simrt.WaitQuiescent("settled")
 
+	CheckDisclosure(c, clients, rc.AllowDisclose)
 	states := CheckReplies(c, clients)
 	// liveness obligations
 	everStalled := map[*TClient]bool{}
@@ -291,6 +292,7 @@ func runC08(c *Ctx) {
 		}
 	}
 	CheckOrderingLossy(c, clients, lossy)
+	CheckDisclosure(c, clients, rc.AllowDisclose)
 	if c.S.MultiEnabled > 0 {
 		c.Res.NonTrivial = true
 	}
